@@ -344,7 +344,8 @@ func runProperty(eng *Engine, prop, tier string, timeout int, findings []Finding
 			if prop == "C11" && o.Kind != "frame:global" && o.Kind != "order:maprange" && !o.Cover {
 				continue
 			}
-			if prop == "C10" && !(strings.HasPrefix(o.Kind, "safe") || o.Kind == "dec" || (o.Kind == "pre" && (strings.Contains(o.Sub, "#recv") || strings.Contains(o.Sub, "#nonnil"))) || o.Cover) {
+			// C10: the no-panic obligations, and the preconditions of callees (a callee is panic-free only under its precondition)
+			if prop == "C10" && !(strings.HasPrefix(o.Kind, "safe") || o.Kind == "dec" || o.Kind == "pre" || o.Cover) {
 				continue
 			}
 			insts = append(insts, &oblInst{obl: o, text: rep.Texts[i], rep: rep})
@@ -553,6 +554,14 @@ func classify(eng *Engine, g *OblGroup, prop string, findings []Finding, lock ma
 		if g.Instances[0].obl.Cover {
 			g.Status = "cover-ok"
 		}
+		return
+	}
+	if g.Instances[0].obl.Cover && (prop == "C10" || prop == "C11") && g.Kind != "cover:pre" {
+		// in the sweeps a contradiction among the assumptions of a function means that its loop invariants no longer fit
+		// the (changed) code: the safety / shared-state obligations of that function are unreliable - undecided, and the
+		// mismatch itself is reported by the properties that own the invariants
+		g.Status = "undecided"
+		res.Undecided = append(res.Undecided, fmt.Sprintf("obligation=%s reason=the assumptions made in %s are contradictory (its invariants do not fit the code): its sweep obligations are not decided", g.Name, g.Func))
 		return
 	}
 	if g.Instances[0].obl.Cover {
